@@ -40,11 +40,26 @@ def check_case(case, ctx):
     except Exception as e:  # noqa: BLE001
         ctx.violation("accepted", f"profile of the language rejected by the parser: {type(e).__name__}: {str(e)[:300]}", case)
         return
+    import logging
+
+    lg = logging.getLogger("dissect.cobaltstrike.c2profile")
+    old_level = lg.level
+    if case.get("debug_logging"):
+        # the host program runs with debug logging switched on: the regenerated text is the same
+        lg.setLevel(logging.DEBUG)
+        if not lg.handlers:
+            lg.addHandler(logging.NullHandler())
+        lg.propagate = False
+        logging.disable(logging.NOTSET)  # (the harness silences library logging globally, see vf/core.py)
     try:
         out = prof.as_text()
     except Exception as e:  # noqa: BLE001
         ctx.violation("tokens.equal", f"as_text() raised {type(e).__name__}: {str(e)[:300]}", case)
         return
+    finally:
+        lg.setLevel(old_level)
+        if case.get("debug_logging"):
+            logging.disable(logging.CRITICAL)
     ctx.mon("tokens.equal")
     src_tokens = PR.tokenize(text)
     try:
@@ -76,8 +91,10 @@ def check_case(case, ctx):
         ctx.mon("from_path.same")
         fd, tmp = tempfile.mkstemp(prefix="vf_c10_", suffix=".profile")
         try:
-            os.write(fd, text.encode("utf-8"))
             os.close(fd)
+            # written the way from_path() reads: text mode, the platform's default encoding, no newline translation
+            with open(tmp, "w", newline="") as f:
+                f.write(text)
             try:
                 via = c2profile.C2Profile.from_path(tmp)
             except Exception as e:  # noqa: BLE001
@@ -231,7 +248,12 @@ def run_shard(shard, ctx):
                         toks[k] = '"' + rng.choice(["\\\n", "\\ ", "\\/", "\\q", "\\;", "\\\r\n", "function f() {\n\n return 1; }", "{\n \n", "a {\n\t\nb", "}\n\n{"]) + t[1:]
                 s.tokens = toks
             via_path = rng.random() < 0.25
-            if not via_path and rng.random() < 0.25:
+            try:
+                "\u00e9\ufeff\u20ac\u65e5".encode(__import__("locale").getpreferredencoding(False))
+                nonascii_ok = True
+            except (UnicodeEncodeError, LookupError):
+                nonascii_ok = not via_path  # a platform encoding that cannot hold these characters: only through from_text
+            if nonascii_ok and rng.random() < 0.25:
                 # raw characters outside ASCII inside literals (scraped page content): zero-width and byte-order-mark
                 # characters included - the token comes back unchanged
                 toks = list(s.tokens)
@@ -246,7 +268,7 @@ def run_shard(shard, ctx):
                 text = text.replace("\n", "\r\n")
             rae = rng.random() < 0.3
             check_case({"text": text, "kind": "random", "productions": sorted(s.productions), "reparse_after_edit": rae, "via_path": via_path,
-                        "view_history": rng.getrandbits(30) + 1 if not rae and rng.random() < 0.5 else 0}, ctx)
+                        "view_history": rng.getrandbits(30) + 1 if not rae and rng.random() < 0.5 else 0, "debug_logging": rng.random() < 0.2}, ctx)
     elif kind == "everything":
         # one profile with every production chain concatenated
         toks = []
